@@ -28,7 +28,7 @@ ASSUMPTIONS = [
     "hot reloading (codefind.conform) is not part of the alphabet",
     "codefind's timing switch is replaced by the explicit always_use_cache flag with last_cost forced to 0",
 ]
-BOUNDS = {"quick": {"depth": 4, "slots": "2 by name + 2 by reference"}, "thorough": {"depth": 6, "slots": "2 by name + 2 by reference", "merge_audit_depth": 3}}
+BOUNDS = {"quick": {"depth": 4, "slots": "2 by name + 2 by reference"}, "thorough": {"depth": 5, "slots": "2 by name + 2 by reference", "merge_audit_depth": 3}}
 
 MODULE_SRC = '''
 import functools
